@@ -40,7 +40,7 @@ def header_bound_ops(tree, spec):
     return out
 
 
-def judge(ctx, rep, spec, pristine, ptree, ops, limit, coords, model_batch, pend, focus, fault, cls, lv):
+def judge(ctx, rep, spec, pristine, ptree, ops, limit, coords, model_batch, pend, focus, fault, cls, lv, case_cli=None):
     tree = tastelib.apply_ops(ptree, ops)
     path = ctx.newdir("c04i_")
     tastelib.write_tree(tree, path, pristine, ptree)
@@ -48,8 +48,11 @@ def judge(ctx, rep, spec, pristine, ptree, ops, limit, coords, model_batch, pend
     rep.case({"s": spec, "o": ops, "l": limit, "c": coords}, nontrivial=True)
     rep.count("class:" + (cls if "+" not in cls else "pair"))
     kw = dict(boxes_coordinates=True) if coords else {}
-    gf, rf = tastelib.real_taste(path, limit=limit, nofail=False, **kw)
-    gn, rn = tastelib.real_taste(path, limit=limit, nofail=True, **kw)
+    cli = case_cli if case_cli is not None else (focus == "C04" and (len(ops) + (limit or 0) + len(cls) + lv) % (2 if coords else 4) == 0)
+    if cli:
+        case["cli"] = True; rep.count("console-script")
+    gf, rf = tastelib.real_taste(path, limit=limit, nofail=False, cli=cli, **kw)
+    gn, rn = tastelib.real_taste(path, limit=limit, nofail=True, cli=cli, **kw)
     obs = {"fail_mode": [gf, rf], "nofail_mode": [gn, rn]}
     in_scope = fault is True and (limit is None or lv <= limit)
     if focus == "C04":
@@ -167,7 +170,7 @@ def replay(ctx, rep, obj, model=True, focus="C04"):
     batch = tastelib.ModelBatch() if model else None
     pend = []
     judge(ctx, rep, spec, pristine, ptree, c["ops"], c.get("limit"), c.get("coords", False), batch, pend, focus,
-          c.get("fault"), c.get("class", "?"), c.get("level", 0))
+          c.get("fault"), c.get("class", "?"), c.get("level", 0), case_cli=c.get("cli", False))
     if batch is not None and pend:
         rs = leanio.driver(batch.reqs)
         for case, gf, i in pend:
